@@ -156,11 +156,31 @@ def save (maxLen A : Nat) (name signedValue : Str) : Outcome (List SetCookie) :=
   | .err e => .err e
   | .panic e => .panic e
 
-/-- The matcher `^name(_\d+)?$` of `Clear` (`name` is passed through `regexp.QuoteMeta` since the
-    fix of the unquoted interpolation; before that fix this model is valid for names free of
-    regex metacharacters): exactly `name`, or `name ++ "_" ++ digits` with at least one ASCII
-    digit (`\d` is ASCII-only in Go's RE2, `$` without the `m` flag is end of text). -/
+/-- Go `isSessionCookieName(name, candidate)` (since the fix "recognise truncated split-cookie
+    names when clearing session cookies"):
+    ```
+    if candidate == name { return true }
+    idx := strings.LastIndex(candidate, "_");  if idx < 0 { return false }
+    count, err := strconv.Atoi(candidate[idx+1:]);  if err != nil || count < 0 { return false }
+    return candidate == splitCookieName(name, count)
+    ```
+    `Atoi` accepts a sign and leading zeros, but then the comparison with the canonical
+    `splitCookieName` result fails; range errors (beyond int64) are errors.  Effectively
+    (`matchesSessionName_iff`): `candidate = name` or `candidate = splitCookieName name i` for
+    some `0 ≤ i ≤ 2⁶³−1`. -/
 def matchesSessionName (name n : Str) : Bool :=
+  n == name ||
+    match lastIndexOf '_' n with
+    | none => false
+    | some idx =>
+      match atoi (n.drop (idx + 1)) with
+      | none => false
+      | some count => decide (0 ≤ count) && n == splitCookieName name count.toNat
+
+/-- The matcher before that fix: the regular expression `^name(_\d+)?$` (`name` quoted):
+    exactly `name`, or `name ++ "_" ++ digits` with at least one ASCII digit.  It does not
+    recognise truncated part names (kept for the regression example in `O2P.Props.C10`). -/
+def matchesSessionNameRegex (name n : Str) : Bool :=
   n == name ||
     (hasPrefix name n &&
       match n.drop name.length with
@@ -173,7 +193,7 @@ def clearStore (name : Str) (presented : Jar) : List SetCookie :=
 
 /-- Fixed `Save` (repo commit "delete stale session cookies when the cookie store saves a
     session"): `setSessionCookie` first calls `clearCookiesExcept(rw, req, written)` — a
-    deletion for every presented cookie matching `name(_N)?` whose name is not among the
+    deletion for every presented cookie accepted by `isSessionCookieName` whose name is not among the
     cookies about to be written, in the order presented — and then writes the cookies of
     `makeSessionCookie`.  (The names of deletions and writes are disjoint, so the order does
     not influence the resulting jar.) -/
@@ -192,15 +212,15 @@ def load (jar : Jar) (name : Str) : Option (Str × Str) := loadCookie jar name
 
 /-! ### Histories -/
 
-inductive Op where
-  | save  : Str → Op
-  | clear : Op
+inductive JarOp where
+  | save  : Str → JarOp
+  | clear : JarOp
   deriving DecidableEq, Repr
 
 /-- One request/response round trip: the browser presents `jar`, the store answers, the
     browser applies the `Set-Cookie` headers.  A failing `save` writes nothing. -/
 def stepWith (saveFn : Str → Jar → Outcome (List SetCookie)) (name : Str) (jar : Jar) :
-    Op → Jar
+    JarOp → Jar
   | .save v =>
     match saveFn v jar with
     | .ok cs => applySetCookies jar cs
@@ -208,15 +228,15 @@ def stepWith (saveFn : Str → Jar → Outcome (List SetCookie)) (name : Str) (j
   | .clear => applySetCookies jar (clearStore name jar)
 
 /-- history with the pre-fix `Save` (never deletes stale cookies) -/
-def runCurrent (maxLen A : Nat) (name : Str) (ops : List Op) (jar : Jar) : Jar :=
+def runCurrent (maxLen A : Nat) (name : Str) (ops : List JarOp) (jar : Jar) : Jar :=
   ops.foldl (stepWith (fun v _ => save maxLen A name v) name) jar
 
 /-- history with the fixed `Save` -/
-def runFixed (maxLen A : Nat) (name : Str) (ops : List Op) (jar : Jar) : Jar :=
+def runFixed (maxLen A : Nat) (name : Str) (ops : List JarOp) (jar : Jar) : Jar :=
   ops.foldl (stepWith (fun v j => saveFixed maxLen A name v j) name) jar
 
 /-- what the browser should present after the history -/
-def lastSaved (name : Str) (ops : List Op) : Option (Str × Str) :=
+def lastSaved (name : Str) (ops : List JarOp) : Option (Str × Str) :=
   match ops.getLast? with
   | some (.save v) => some (name, v)
   | _ => none
